@@ -103,6 +103,13 @@ impl<'tcx> Interp<'tcx> {
                 (PlaceRef::Mem(p), ProjectionElem::Downcast(_, v)) => PlaceRef::Mem(p.push(PElem::Downcast(v.as_u32()))),
                 (PlaceRef::Mem(p), ProjectionElem::Index(l)) => {
                     let iv = self.read_local_int(st, l.as_u32());
+                    if self.taint_track {
+                        if let Some(i) = &iv {
+                            if i.taint != 0 && i.is_const().is_none() {
+                                self.leak("index", "array index depends on tainted data");
+                            }
+                        }
+                    }
                     match iv {
                         Some(i) => PlaceRef::Mem(p.push(idx_elem(i.lo, i.hi))),
                         None => return PlaceRef::Unknown,
@@ -111,6 +118,13 @@ impl<'tcx> Interp<'tcx> {
                 (PlaceRef::Mem(p), ProjectionElem::ConstantIndex { offset, from_end: false, .. }) => PlaceRef::Mem(p.push(PElem::Index(offset as i128))),
                 (PlaceRef::SliceView { base, start, .. }, ProjectionElem::Index(l)) => {
                     let iv = self.read_local_int(st, l.as_u32());
+                    if self.taint_track {
+                        if let Some(i) = &iv {
+                            if i.taint != 0 && i.is_const().is_none() {
+                                self.leak("index", "slice index depends on tainted data");
+                            }
+                        }
+                    }
                     match iv {
                         Some(i) => PlaceRef::Mem(base.push(idx_elem(start.lo.saturating_add(i.lo), start.hi.saturating_add(i.hi)))),
                         None => return PlaceRef::Unknown,
